@@ -64,6 +64,7 @@ enum {
     F_RFC822_OFFSET,
     F_SUBSECOND_INIT,
     F_EXTREME,
+    F_WALL_BEFORE_EPOCH,
     F_NFLAGS
 };
 static const char *FLAG_NAMES[F_NFLAGS] = {
@@ -88,6 +89,7 @@ static const char *FLAG_NAMES[F_NFLAGS] = {
     "rfc822_numeric_offset",
     "subsecond_constructor_input",
     "extreme_instant",
+    "west_offset_wall_clock_before_epoch",
 };
 
 /* ------------------------------------------------------------------ reference calendar (a): closed form */
@@ -636,6 +638,17 @@ static void run_variant(int64_t t) {
         civil_from_secs(t + (neg ? -off : off), &probe);
         if (probe.y > Y_MAX) {
             neg = true; /* local fields would need a five-digit year */
+        }
+    }
+    if (use_offset && off > 0 && mon_chance(r, 1, 6)) {
+        /* wall-clock readings at and just before 1970-01-01T00:00:00 shown with a west offset: the fields alone denote a
+         * time before the epoch (timegm of the fields is -1, -2, -86400 ...), the instant is in range */
+        static const int64_t WALL[] = {-1, -1, -2, 0, -59, -60, -3599, -3600, -86399, -86400};
+        int64_t w = WALL[mon_below(r, sizeof(WALL) / sizeof(WALL[0]))];
+        if (w + off >= 0) {
+            neg = true;
+            t = w + off;
+            mon_flag(F_WALL_BEFORE_EPOCH);
         }
     }
     int64_t signed_off = neg ? -off : off;
